@@ -30,8 +30,14 @@ class CustomLookup(LookupError):
     pass
 
 
+class CustomWarning(UserWarning):
+    pass
+
+
 EXCS = [ValueError, TypeError, KeyError, AttributeError, ZeroDivisionError,
-        CustomError, CustomLookup, RuntimeError, IndexError, StopIteration, OSError, AssertionError]
+        CustomError, CustomLookup, RuntimeError, IndexError, StopIteration, OSError, AssertionError,
+        # Warning classes derive from Exception as well
+        DeprecationWarning, CustomWarning]
 
 
 class State:
@@ -61,6 +67,16 @@ class LazyNode(LazyBase):
     """Instances of this subclass are what gets printed."""
 
 
+class DictNode(dict):
+    """A dict subclass that keeps the built-in __repr__ (keys in insertion order)."""
+    ident = 0
+
+
+class ListNode(list):
+    """A list subclass that keeps the built-in __repr__."""
+    ident = 0
+
+
 def _raise_selected(sel):
     # explicit chain: a symbolic index into a list of classes is unsupported
     # the message contains format-string metacharacters on purpose
@@ -75,6 +91,24 @@ def pretty_node(value, ctx):
     if State.count == State.fault_at:
         _raise_selected(State.sel)
     return PP.pretty_call(ctx, type(value), *value.children)
+
+
+def pretty_dnode(value, ctx):
+    State.count += 1
+    if State.count == State.fault_at:
+        _raise_selected(State.sel)
+    with NoTracing():          # (under the tracer dict(x) would be a CrossHair proxy, not a dict)
+        plain = dict(value)
+    return PP.pretty_call(ctx, type(value), plain)
+
+
+def pretty_lnode(value, ctx):
+    State.count += 1
+    if State.count == State.fault_at:
+        _raise_selected(State.sel)
+    with NoTracing():
+        plain = list(value)
+    return PP.pretty_call(ctx, type(value), plain)
 
 
 def pretty_node_tc(value, ctx, trailing_comment=None):
@@ -95,6 +129,8 @@ def register():
     if not _registered[0]:
         PP.register_pretty(Node)(pretty_node)
         PP.register_pretty(NodeTC)(pretty_node_tc)
+        PP.register_pretty(DictNode)(pretty_dnode)
+        PP.register_pretty(ListNode)(pretty_lnode)
         # a predicate-registered printer that would also accept the nodes
         # (predicates are only consulted for unregistered types: it must never
         # be used for a Node, failing or not)
@@ -116,6 +152,16 @@ def build(spec, memo=None):
     if k in ('node', 'nodetc', 'lazynode'):
         cls = {'node': Node, 'nodetc': NodeTC, 'lazynode': LazyNode}[k]
         o = cls(spec[1], *[build(c, memo) for c in spec[2]])
+        memo[spec[1]] = (o, spec)
+        return o
+    if k == 'dnode':
+        o = DictNode((key, build(c, memo)) for key, c in spec[2])
+        o.ident = spec[1]
+        memo[spec[1]] = (o, spec)
+        return o
+    if k == 'lnode':
+        o = ListNode(build(c, memo) for c in spec[2])
+        o.ident = spec[1]
         memo[spec[1]] = (o, spec)
         return o
     if k == 'ref':                      # the very same object again (sharing, no cycle)
@@ -145,6 +191,14 @@ def resolve_refs(spec, memo=None):
         out = [k, spec[1], [resolve_refs(c, memo) for c in spec[2]]]
         memo[spec[1]] = out
         return out
+    if k == 'dnode':
+        out = [k, spec[1], [[key, resolve_refs(c, memo)] for key, c in spec[2]]]
+        memo[spec[1]] = out
+        return out
+    if k == 'lnode':
+        out = [k, spec[1], [resolve_refs(c, memo) for c in spec[2]]]
+        memo[spec[1]] = out
+        return out
     if k == 'ref':
         return memo[spec[1]]
     if k in ('tc', 'c'):
@@ -159,6 +213,14 @@ def resolve_refs(spec, memo=None):
 def preorder(spec, out):
     k = spec[0]
     if k in ('node', 'nodetc', 'lazynode'):
+        out.append(spec[1])
+        for c in spec[2]:
+            preorder(c, out)
+    elif k == 'dnode':
+        out.append(spec[1])
+        for key, c in spec[2]:
+            preorder(c, out)
+    elif k == 'lnode':
         out.append(spec[1])
         for c in spec[2]:
             preorder(c, out)
@@ -186,6 +248,15 @@ def expected_src(spec, failed_occurrence, counter=None):
             return 'NODE_%d' % spec[1]
         name = 'vf.props.c14.' + {'node': 'Node', 'nodetc': 'NodeTC', 'lazynode': 'LazyNode'}[k]
         return '%s(%s)' % (name, ', '.join(expected_src(c, failed_occurrence, counter) for c in spec[2]))
+    if k in ('dnode', 'lnode'):
+        counter[0] += 1
+        if counter[0] == failed_occurrence:
+            return repr_src(spec)
+        if k == 'dnode':
+            return 'vf.props.c14.DictNode({%s})' % ', '.join(
+                '%r: %s' % (key, expected_src(c, failed_occurrence, counter)) for key, c in spec[2])
+        return 'vf.props.c14.ListNode([%s])' % ', '.join(
+            expected_src(c, failed_occurrence, counter) for c in spec[2])
     if k in ('tc', 'c'):
         return expected_src(spec[2], failed_occurrence, counter)
     if k == 'list':
@@ -198,6 +269,29 @@ def expected_src(spec, failed_occurrence, counter=None):
         return repr(spec[1])
 
 
+def repr_src(spec):
+    """Source text of repr(value) for the object built from ``spec`` (the
+    built-in reprs of dict / list / tuple / int, NODE_n for the nodes)."""
+    k = spec[0]
+    if k in ('node', 'nodetc', 'lazynode'):
+        return 'NODE_%d' % spec[1]
+    if k == 'dnode':
+        return '{' + ', '.join('%r: %s' % (key, repr_src(c)) for key, c in spec[2]) + '}'
+    if k == 'lnode':
+        return '[' + ', '.join(repr_src(c) for c in spec[2]) + ']'
+    if k in ('tc', 'c'):
+        return repr_src(spec[2])
+    if k == 'list':
+        return '[' + ', '.join(repr_src(c) for c in spec[1]) + ']'
+    if k == 'tuple':
+        return '(' + ', '.join(repr_src(c) for c in spec[1]) + (',' if len(spec[1]) == 1 else '') + ')'
+    if k == 'dict':
+        return '{' + ', '.join('%r: %s' % (key, repr_src(c)) for key, c in spec[1]) + '}'
+    if k == 'int':
+        return repr(spec[1])
+    raise ValueError(spec)
+
+
 def tc_nodes(spec, out, under_tc=False):
     """ids of nodes that directly carry a trailing comment"""
     k = spec[0]
@@ -205,13 +299,16 @@ def tc_nodes(spec, out, under_tc=False):
         inner = spec[2]
         while inner[0] in ('tc', 'c'):
             inner = inner[2]
-        if inner[0] in ('node', 'nodetc', 'lazynode'):
+        if inner[0] in ('node', 'nodetc', 'lazynode', 'dnode', 'lnode'):
             out.add(inner[1])
         tc_nodes(spec[2], out)
     elif k == 'c':
         tc_nodes(spec[2], out)
-    elif k in ('node', 'nodetc', 'lazynode'):
+    elif k in ('node', 'nodetc', 'lazynode', 'lnode'):
         for c in spec[2]:
+            tc_nodes(c, out)
+    elif k == 'dnode':
+        for key, c in spec[2]:
             tc_nodes(c, out)
     elif k in ('list', 'tuple'):
         for c in spec[1]:
@@ -291,7 +388,7 @@ class FaultCase(base.CaseBase):
                 if len(bad) != 1:
                     return self.fail('C14:not-exactly-one-warning', describe)
                 msg = str(bad[0].message)
-                if not issubclass(bad[0].category, UserWarning) or 'pretty_node' not in msg:
+                if not issubclass(bad[0].category, UserWarning) or not ('pretty_node' in msg or 'pretty_dnode' in msg or 'pretty_lnode' in msg):
                     return self.fail('C14:warning-does-not-name-printer', describe)
             try:
                 got = ast.dump(ast.parse('(' + text + '\n)', mode='eval'))
@@ -531,6 +628,9 @@ TREES = [
     ('by-name-top', ['lazynode', 1, [I(1)]]),
     ('by-name-nested', ['list', [['lazynode', 1, [['lazynode', 2, [I(1)]]]], I(2), ['lazynode', 3, []]]]),
     ('by-name-mixed', N(1, ['lazynode', 2, [I(1)]], N(3))),
+    # printers for dict / list subclasses that keep the built-in __repr__ (keys not in sorted order)
+    ('dict-subclass', ['dnode', 1, [['zeta', I(1)], ['alpha', N(2, I(2))], ['mid', ['dict', [['y', I(3)], ['b', I(4)]]]]]]),
+    ('list-subclass', ['list', [['lnode', 1, [I(3), ['dict', [['z', I(1)], ['a', N(2)]]], ['dnode', 3, [['q', I(0)], ['c', I(1)]]]]]]]),
 ]
 
 
